@@ -477,15 +477,29 @@ def corr_classical(ctx):
         lines.append(f"HWB {len(a)} {' '.join(map(str, a))}")
         meta.append(("hwb", a, rng.choice(["str", "list", "tuple", "array", "liststr"])))
     pairs = [(x, y) for x in range(9) for y in range(9)] + [(rng.randrange(2**rng.randint(1, 34)), rng.randrange(2**rng.randint(1, 34))) for _ in range(60)]
+    pairs += [(31, 21), (21, 31), (2**20 + 5, 2**20 + 6), (2**33 - 1, 2**33 - 1)]
+    for _ in range(40):  # same length, common leading digits: the xor has fewer digits than the operands
+        k, pre = rng.randint(2, 30), rng.randint(1, 6)
+        top = (1 << (pre - 1)) | rng.randrange(1 << (pre - 1))
+        pairs.append(((top << k) | rng.randrange(1 << k), (top << k) | rng.randrange(1 << k)))
     for x, y in pairs:
-        lines.append(f"HDN {x} {y}")
+        lines.append(f"HDNI {x} {y}")
         meta.append(("hdn", (x, y), None))
-    for _ in range(150 if ctx.thorough else 70):
+    forms = ["str", "list", "tuple", "liststr", "int"]
+    for _ in range(260 if ctx.thorough else 130):
         a, b = bits(rng.randint(1, 8)), bits(rng.randint(1, 8))
-        if rng.random() < 0.5:
+        r = rng.random()
+        if r < 0.4:
             b = bits(len(a))
-        lines.append(f"HDB {len(a)} {' '.join(map(str, a))} {len(b)} {' '.join(map(str, b))}")
-        meta.append(("hdb", (a, b), rng.choice(["str", "list", "tuple", "liststr", "mixed"])))
+        elif r < 0.6:  # common prefix (also leading zeros), differing tail
+            pre = bits(rng.randint(1, 4))
+            a, b = pre + bits(rng.randint(1, 5)), pre + bits(rng.randint(1, 5))
+        fa, fb = rng.choice(forms), rng.choice(forms)
+        # an int argument is read through f"{n:b}": its leading zeros are not part of the string
+        ma = [int(c) for c in f"{int(''.join(map(str, a)), 2):b}"] if fa == "int" else a
+        mb = [int(c) for c in f"{int(''.join(map(str, b)), 2):b}"] if fb == "int" else b
+        lines.append(f"HDB {len(ma)} {' '.join(map(str, ma))} {len(mb)} {' '.join(map(str, mb))}")
+        meta.append(("hdb", (ma, mb), (fa, fb)))
     for _ in range(80 if ctx.thorough else 40):
         k = rng.randint(1, 7)
         D = rng.choice([1, 2, 7, 10, 64, 1000])
@@ -504,6 +518,8 @@ def corr_classical(ctx):
             return tuple(bits_)
         if how == "array":
             return np.array(bits_, dtype=int)
+        if how == "int":
+            return int("".join(map(str, bits_)), 2)
         return [str(b) for b in bits_]
 
     for (kind, arg, how), out in zip(meta, outs):
@@ -527,22 +543,38 @@ def corr_classical(ctx):
                 ok = got == exp and gi == [int(t) for t in idx.strip().split(",") if t]
                 key = f"hamming_weight:{how}"
             elif kind == "hdn":
-                exp = int(out)
+                w, idx = out.split(";")
+                exp = int(w)
+                eidx = [int(t) for t in idx.strip().split(",") if t]
                 call = f"hamming_distance({arg[0]}, {arg[1]})"
                 key = "hamming_distance:int-inputs"
                 got = hamming_distance(*arg)
                 ok = got == exp == bin(arg[0] ^ arg[1]).count("1") and hamming_distance(arg[1], arg[0]) == exp
+                if ok:  # return_indexes=True: positions in the padded common-length binary strings, both argument orders
+                    gi = hamming_distance(arg[0], arg[1], return_indexes=True)
+                    gj = hamming_distance(arg[1], arg[0], return_indexes=True)
+                    if list(gi) != eidx or list(gj) != eidx:
+                        ok, got, exp = False, (gi, gj), eidx
+                        call = f"hamming_distance({arg[0]}, {arg[1]}, return_indexes=True)"
+                        key = "hamming_distance:int-inputs:indexes"
             elif kind == "hdb":
                 w, idx = out.split(";")
                 exp = int(w)
+                eidx = [int(t) for t in idx.strip().split(",") if t]
                 a, b = arg
-                xa = conv(a, "list" if how == "mixed" else how)
-                xb = conv(b, "str" if how == "mixed" else how)
+                fa, fb = how
+                xa, xb = conv(a, fa), conv(b, fb)
                 call = f"hamming_distance({xa!r}, {xb!r})"
-                key = "hamming_distance:int-inputs" if how in ("list", "tuple", "mixed") else f"hamming_distance:{how}"
+                key = "hamming_distance:int-inputs" if (fa in ("list", "tuple", "int") or fb in ("list", "tuple", "int")) else f"hamming_distance:{fa}"
                 got = hamming_distance(xa, xb)
-                gi = hamming_distance(xa, xb, return_indexes=True)
-                ok = got == exp and gi == [int(t) for t in idx.strip().split(",") if t] and hamming_distance(xb, xa) == exp
+                ok = got == exp and hamming_distance(xb, xa) == exp
+                if ok:
+                    gi = hamming_distance(xa, xb, return_indexes=True)
+                    gj = hamming_distance(xb, xa, return_indexes=True)
+                    if list(gi) != eidx or list(gj) != eidx:
+                        ok, got, exp = False, (gi, gj), eidx
+                        call = f"hamming_distance({xa!r}, {xb!r}, return_indexes=True)"
+                        key += ":indexes"
             else:
                 p, q, D = arg
                 exp = float(Fraction(int(out), 2 * D))
@@ -556,6 +588,10 @@ def corr_classical(ctx):
         except Exception as e:  # noqa: BLE001
             ok, got = False, f"{type(e).__name__}: {e}"
         if not ok:
+            if key.endswith(":indexes"):
+                T.fail(key, f"{call} = {got[0]} (arguments exchanged: {got[1]}), the positions where the zero-padded strings differ are {exp}",
+                       HEADER + f"got = {call}\nassert list(got) == {exp!r}, got\n", exp, str(got))
+                continue
             T.fail(key, f"{call} = {got}, definition gives {exp}", HEADER + f"got = {call}\nassert abs(got - {exp!r}) <= 1e-12, got\n", exp, str(got))
     T.done()
 
